@@ -12,6 +12,7 @@ CONSTANTS
   InitScopeSets = {{}, {"all"}}
   HiddenChoices = {{}}
   ActScopes = {"all", "p1"}
+  RepKinds = {}
   MaxNow = 4
   Depth = 10
   FullParams = {"p1"}
@@ -19,6 +20,7 @@ CONSTANTS
   GenConns = {"c2"}
   GenDefaults = {"a"}
   GenLiteOmit = {2}
+  GenExtra = {"At", "Nest", "Deact", "Untouched"}
 CONSTRAINT Bound
 ACTION_CONSTRAINT EmitStep
 VIEW AbstractView
